@@ -8,7 +8,7 @@ RULE = ("a pool of deterministic requests (seeded keygen, deterministic sign, ve
         "sets and two keys per set is (a) answered in isolation by model and code, (b) executed inside the harness concurrently on "
         "1, 2, 4, 8 and 16 threads, each thread walking the pool in a different order for several rounds, every answer compared with "
         "the isolated one, (c) re-run sequentially in shuffled order after randomized operations. A source scan requires that the "
-        "crate has no static / thread_local / unsafe / interior mutability outside tests and the verification hook. "
+        "crate has no static mut / thread_local / interior-mutability construct outside tests and the verification hook (else: correspondence broken). "
         "distinct_nontrivial = distinct pool requests; evaluations adds the calls made inside the interleaved runs.")
 EXPLANATION = ("Props/C10.lean: history independence of drawing-free operations in the sequential machine. The OS scheduler is not "
                "modelled; a race that never manifests in the explored schedules is outside what this technique can exhibit (partial).")
@@ -26,11 +26,22 @@ def source_scan():
             txt = open(os.path.join(root, f)).read()
             txt = txt.split("#[cfg(test)]")[0]
             txt = re.sub(r"//[^\n]*", "", txt)
-            for pat in (r"\bstatic\s+(mut\s+)?[A-Z_]+\s*:", r"thread_local!", r"\bunsafe\b", r"\b(RefCell|Cell|Mutex|RwLock|Atomic[A-Za-z0-9]+|OnceCell|OnceLock|lazy_static)\b"):
+            # only constructs that can hold state across calls: immutable statics, consts and `unsafe` blocks are not state
+            for pat in (r"\bstatic\s+mut\b", r"thread_local!", r"\b(RefCell|Cell|UnsafeCell|Mutex|RwLock|Atomic[A-Za-z0-9]+|OnceCell|OnceLock|LazyLock|LazyCell|lazy_static)\b"):
                 m = re.search(pat, txt)
                 if m:
                     bad.append("%s: %s" % (os.path.relpath(os.path.join(root, f), core.REPO), m.group(0)))
     return bad
+
+
+def model_assumption_broken():
+    """The model threads no state but the RNG tape through the operations (that is what `history_independent` is about).
+    A construct in the crate that can carry state from one call to the next means the model no longer mirrors the code's
+    state space: reported as a broken correspondence (no failing input) unless the behavioural tie finds one."""
+    if _st["scan"]:
+        return ["the crate now contains a construct that can keep state across calls, which the state-free model does not mirror: %s"
+                % "; ".join(_st["scan"][:4])]
+    return []
 
 
 def weight(line):
@@ -91,8 +102,6 @@ def followup(stage, lines, model, checked, release, tier, rng):
 
 def violated_all(lines, model, checked, release):
     out = []
-    if _st["scan"]:
-        out.append((0, "source scan: shared mutable state construct in the crate: %s" % "; ".join(_st["scan"][:4])))
     first = {}
     for i, l in enumerate(lines):
         if l.startswith("@impl interleave"):
